@@ -119,3 +119,9 @@ Lemma Codec_entry_points :
           ["OSM.UnmarshalJSON"; "findType"; "WayNodes.UnmarshalJSON"]
   && str_list_eqb (calls_of "Tags.UnmarshalJSON") ["json.Unmarshal"] = true.
 Proof. vm_compute. reflexivity. Qed.
+
+(* the byte literals Members.MarshalJSON / Date.MarshalJSON return as is are the ones the model
+   encodes (JArr [] for an empty member list, JNull for the zero date) *)
+Lemma Marshal_literals :
+  str_list_eqb members_literals ["[]"] && str_list_eqb date_literals ["null"] = true.
+Proof. vm_compute. reflexivity. Qed.
